@@ -31,8 +31,7 @@ def impl_solve_t(case):
     m = scripted.instantiate(cls, span, case['vals'], case['status'], case['iters'], case['scripts'],
                              lags=case.get('lags', 0), leads=case.get('leads', 0))
     o = case['opts']
-    kw = dict(min_iter=o['min_iter'], max_iter=o['max_iter'], tol=lib.unhex(o['tol']), offset=o['offset'],
-              failures=o['failures'], errors=o['errors'], catch_first_error=o['catch_first_error'])
+    kw = solve_kwargs(o, case.get('kwargs'))
     try:
         if case.get('entry', 'solve_t') == 'solve_period':
             r = m.solve_period(span[case['t'] if case['t'] >= 0 else case['t'] + n], **kw)
@@ -80,9 +79,19 @@ def c_scripts(sc):
     return lib.clist(items)
 
 
-def c_opts(o):
-    return '(mkOpts %s %s %s %s %s %s %s)' % (lib.cZ(o['min_iter']), lib.cZ(o['max_iter']), lib.cfloat(o['tol']), lib.cZ(o['offset']),
-                                              lib.cbool(o['failures'] == 'raise'), ERRMODES.get(o['errors'], 'EInvalid'), lib.cbool(o['catch_first_error']))
+DFLT_RECORD = {'solve_t': 'dflt_solve_t', 'solve_period': 'dflt_solve_period', 'solve': 'dflt_solve', 'iter_periods': 'dflt_solve', 'iter_next': 'dflt_solve'}
+FIELD = {'min_iter': 'min_iter', 'max_iter': 'max_iter', 'tol': 'tol', 'offset': 'offset', 'failures': 'fail_raise', 'errors': 'errors',
+         'catch_first_error': 'catch_first'}
+
+
+def c_opts(o, entry='solve_t'):
+    """the model's option record; a keyword the call OMITS is taken from the record of regenerated defaults (SolverDefaults.v)"""
+    vals = {'min_iter': lib.cZ(o['min_iter']), 'max_iter': lib.cZ(o['max_iter']), 'tol': lib.cfloat(o['tol']), 'offset': lib.cZ(o['offset']),
+            'failures': lib.cbool(o['failures'] == 'raise'), 'errors': ERRMODES.get(o['errors'], 'EInvalid'),
+            'catch_first_error': lib.cbool(o['catch_first_error'])}
+    for k in o.get('omit', ()):
+        vals[k] = '(%s %s)' % (FIELD[k], DFLT_RECORD.get(entry, 'dflt_solve_t'))
+    return '(mkOpts %s %s %s %s %s %s %s)' % tuple(vals[k] for k in OPT_KEYS)
 
 
 def c_event(e):
@@ -112,7 +121,7 @@ def c_desc(case):
 
 PREAMBLE = '''From Coq Require Import PrimFloat ZArith List Bool.
 Import ListNotations.
-Require Import Fsic.Base.PyBase Fsic.Solver.Solver Fsic.Solver.SolverF.
+Require Import Fsic.Base.PyBase Fsic.Solver.Solver Fsic.Solver.SolverF Fsic.Solver.SolverDefaults.
 Open Scope float_scope. Open Scope Z_scope.
 '''
 
@@ -127,7 +136,7 @@ def model_t(case):
 def c_tcase(case, obs):
     import scripted
     return '(mkCase %s %s %s %s %s %s %s)' % (
-        c_scripts(case['scripts']), c_desc(case), c_opts(case['opts']), lib.cZ(model_t(case)),
+        c_scripts(resolved_scripts(case)), c_desc(case), c_opts(case['opts'], case.get('entry', 'solve_t')), lib.cZ(model_t(case)),
         c_state(case['vals'], case['status'], case['iters'], []),
         c_state(obs['vals'], obs['status'], obs['iters'], obs['log']),
         c_outcome(obs['out'], scripted.CAUSE_TAG))
@@ -140,7 +149,7 @@ def correspond_solve_t(cases, obs, tag):
 
 def explain_solve_t(case, obs):
     return lib.coq_eval('explain', PREAMBLE, 'f_solve_t %s %s %s %s %s' % (
-        c_scripts(case['scripts']), c_desc(case), c_opts(case['opts']), lib.cZ(model_t(case)),
+        c_scripts(resolved_scripts(case)), c_desc(case), c_opts(case['opts'], case.get('entry', 'solve_t')), lib.cZ(model_t(case)),
         c_state(case['vals'], case['status'], case['iters'], [])))[-3000:]
 
 
@@ -340,9 +349,56 @@ def label_specs(span_type, n):
     return sp
 
 
-def solve_kwargs(o):
-    return dict(min_iter=o['min_iter'], max_iter=o['max_iter'], tol=lib.unhex(o['tol']), offset=o['offset'],
-                failures=o['failures'], errors=o['errors'], catch_first_error=o['catch_first_error'])
+# the DOCUMENTED keyword defaults of solve_t / solve_period / solve (what the oracles assume for a keyword a call omits; the model
+# takes the values of the working tree from the regenerated constants, Solver/SolverDefaults.v; Props/C02.v pins them)
+DEFAULTS = {'min_iter': 0, 'max_iter': 100, 'tol': None, 'offset': 0, 'failures': 'raise', 'errors': 'raise', 'catch_first_error': True}
+OPT_KEYS = ('min_iter', 'max_iter', 'tol', 'offset', 'failures', 'errors', 'catch_first_error')
+
+
+def with_omitted(o, omit):
+    """options in which the keywords `omit` are NOT passed: their entries hold the documented defaults"""
+    o = dict(o)
+    for k in omit:
+        o[k] = lib.fhex(TOL) if k == 'tol' else DEFAULTS[k]
+    o['omit'] = sorted(omit)
+    return o
+
+
+def random_omit(rng, o, p=0.15):
+    """with probability p leave out some (sometimes all) of the seven solver keywords"""
+    if rng.random() >= p:
+        return o
+    r = rng.random()
+    omit = list(OPT_KEYS) if r < 0.25 else rng.sample(OPT_KEYS, rng.randint(1, 3))
+    return with_omitted(o, omit)
+
+
+def solve_kwargs(o, extra=None):
+    kw = dict(min_iter=o['min_iter'], max_iter=o['max_iter'], tol=lib.unhex(o['tol']), offset=o['offset'],
+              failures=o['failures'], errors=o['errors'], catch_first_error=o['catch_first_error'])
+    for k in o.get('omit', ()):
+        del kw[k]
+    for k, v in (extra or {}).items():
+        kw[k] = lib.unhex(v)
+    return kw
+
+
+def resolved_scripts(case):
+    """scripts with the kwargs-dependent statements ('setkw') turned into plain stores of the value they have under the case's extra
+    keyword arguments — what the model is given (the model has no kwargs; dropping the forwarding makes the real run differ)"""
+    kw = case.get('kwargs') or {}
+
+    def res(acts):
+        out = []
+        for a in acts:
+            if a[0] == 'setkw':
+                import numpy as np
+                out.append(['set', a[1], lib.fhex(float(np.float64(lib.unhex(a[2])) + np.float64(lib.unhex(kw[a[3]]) if a[3] in kw else 0.0)))])
+            else:
+                out.append(a)
+        return out
+    return {p: {'before': res(ps.get('before', [])), 'passes': [res(x) for x in ps.get('passes', [])], 'after': res(ps.get('after', []))}
+            for p, ps in case['scripts'].items()}
 
 
 def observe_state(m, nvars, names=None):
@@ -413,7 +469,7 @@ def impl_solve(case):
 def run_solve_and_twin(case, fresh, nvars, names):
     n = case['n']
     span = make_span(case['span_type'], n)
-    kw = solve_kwargs(case['opts'])
+    kw = solve_kwargs(case['opts'], case.get('kwargs'))
     ids = span_ids(span, n, case['span_type'])
 
     def lab_id(lab):
@@ -427,6 +483,9 @@ def run_solve_and_twin(case, fresh, nvars, names):
     try:
         if case['entry'] == 'solve_period':
             out = ['ret', bool(m.solve_period(start, **kw))]
+        elif case['entry'] == 'iter_next':
+            first = next(m.iter_periods(start=start, end=end))        # the first (position, label) pair
+            out = ['ret', [lab_id(first[1])], [int(first[0])], [False], [type(first[0]).__name__], 1]
         elif case['entry'] == 'iter_periods':
             pi = m.iter_periods(start=start, end=end)
             pairs = list(pi)
@@ -439,7 +498,7 @@ def run_solve_and_twin(case, fresh, nvars, names):
     except Exception as e:
         c = e.__cause__
         out = ['raise', type(e).__name__, type(c).__name__ if c is not None else None]
-    obs = {'out': out}
+    obs = {'out': out, 'ipkw': m.__dict__.get('_ipkw', [])}
     obs.update(observe_state(m, nvars, names))
     # the span lookup's answers (pandas spans: the model's `locate` oracle is this table; other spans: checked against it)
     loc = {}
@@ -448,14 +507,20 @@ def run_solve_and_twin(case, fresh, nvars, names):
                                                             for s in (case['start'], case['end']) if s is not None]:
         try:
             r = probe._locate_period_in_span(lab)
-            loc[str(key)] = ['int', int(r)] if type(r) is int else ['other', type(r).__name__]
+            import numbers
+            if type(r) is int:
+                loc[str(key)] = ['int', int(r)]
+            elif isinstance(r, numbers.Integral) and not isinstance(r, bool):
+                loc[str(key)] = ['intlike', int(r), type(r).__name__]      # an integer that is no built-in int (e.g. numpy.int64)
+            else:
+                loc[str(key)] = ['other', type(r).__name__]
         except Exception as e:
             loc[str(key)] = ['fail', type(e).__name__]
     obs['loc'] = loc
     obs['ids'] = ids
     # the twin: a loop of solve_t over the positions the statement names
     exp = expected_range(case)
-    if exp is not None and exp[0] == 'range' and case['entry'] != 'iter_periods':
+    if exp is not None and exp[0] == 'range' and case['entry'] not in ('iter_periods', 'iter_next'):
         tw = fresh()
         flags, tout = [], None
         rng_ = [exp[1]] if case['entry'] == 'solve_period' else range(exp[1], exp[2] + 1)
@@ -490,11 +555,11 @@ def c_scase(case, obs):
         xout = '(Ret (1%%nat, [(%s, 0, %s)]))' % (lib.cZ(spec_id(case, ids, case['start'])), lib.cbool(out[1]))
     else:
         vis = ['(%s, %s, %s)' % (lib.cZ(l), lib.cZ(t), lib.cbool(b)) for l, t, b in zip(out[1], out[2], out[3]) if t is not None]
-        xout = '(Ret (%d%%nat, %s))' % (out[5] if case['entry'] == 'iter_periods' else len(out[1]), lib.clist(vis))
+        xout = '(Ret (%d%%nat, %s))' % (out[5] if case['entry'] in ('iter_periods', 'iter_next') else len(out[1]), lib.clist(vis))
     tbl = lib.clist('(%s, %s)' % (lib.cZ(int(k)), c_locres(v)) for k, v in sorted(obs['loc'].items(), key=lambda kv: int(kv[0])))
     return '(mkSCase %s %s %s %d%%nat %s %s %d%%nat %s %s %s %s %s)' % (
-        c_scripts(case['scripts']), c_desc(case), c_opts(case['opts']), SPAN_KIND[case['span_type']],
-        lib.clist(lib.cZ(i) for i in ids), tbl, {'solve_period': 1, 'iter_periods': 2}.get(case['entry'], 0),
+        c_scripts(resolved_scripts(case)), c_desc(case), c_opts(case['opts'], case['entry']), SPAN_KIND[case['span_type']],
+        lib.clist(lib.cZ(i) for i in ids), tbl, {'solve_period': 1, 'iter_periods': 2, 'iter_next': 3}.get(case['entry'], 0),
         opt(case['start']), opt(case['end']),
         c_state(case['vals'], case['status'], case['iters'], []),
         c_state(obs['vals'], obs['status'], obs['iters'], obs['log']), xout)
@@ -502,7 +567,7 @@ def c_scase(case, obs):
 
 PREAMBLE_ALL = '''From Coq Require Import PrimFloat ZArith List Bool.
 Import ListNotations.
-Require Import Fsic.Base.PyBase Fsic.Solver.Solver Fsic.Solver.SolverF Fsic.Solver.SolveAll Fsic.Solver.SolveAllF.
+Require Import Fsic.Base.PyBase Fsic.Solver.Solver Fsic.Solver.SolverF Fsic.Solver.SolverDefaults Fsic.Solver.SolveAll Fsic.Solver.SolveAllF.
 Open Scope float_scope. Open Scope Z_scope.
 '''
 
@@ -731,10 +796,10 @@ def c_hcall(case, ids, call):
     if call['api'] == 'set_cell':
         return '(HSetCell %d%%nat %s %s)' % (call['var'], lib.cZ(call['pos']), lib.cfloat(call['value']))
     if call['api'] == 'solve_t':
-        return '(HSolveT %s %s)' % (c_opts(call['opts']), lib.cZ(call['t']))
+        return '(HSolveT %s %s)' % (c_opts(call['opts'], 'solve_t'), lib.cZ(call['t']))
     if call['api'] == 'solve_period':
-        return '(HSolvePeriod %s %s)' % (c_opts(call['opts']), lib.cZ(spec_id(case, ids, call['start'])))
-    return '(HSolve %s %s %s)' % (c_opts(call['opts']), opt(call['start']), opt(call['end']))
+        return '(HSolvePeriod %s %s)' % (c_opts(call['opts'], 'solve_period'), lib.cZ(spec_id(case, ids, call['start'])))
+    return '(HSolve %s %s %s)' % (c_opts(call['opts'], 'solve'), opt(call['start']), opt(call['end']))
 
 
 def c_hout(case, ids, call, out):
@@ -857,6 +922,7 @@ def hist_case(rng, errs=('raise', 'raise', 'skip', 'skip', 'ignore', 'replace'))
         o = dict(min_iter=rng.choice([0, 0, 1, 2, mx]) if rng.random() < 0.9 else mx + 1, max_iter=mx, tol=lib.fhex(rng.choice([1e-10, 1e-10, 0.75])),
                  offset=rng.choice([0, 0, 0, -1, 1, -2]), failures=rng.choice(['raise', 'ignore']),
                  errors=rng.choice(errs) if rng.random() < 0.95 else 'bogus', catch_first_error=rng.random() < 0.5)
+        o = random_omit(rng, o, 0.12)
         api = rng.choice(['solve_t', 'solve_t', 'solve_period', 'solve', 'solve'])
         if api == 'solve_t':
             p = rng.randrange(len(labels))
@@ -889,3 +955,23 @@ def hist_steps_as_solve_t(case, obs):
         o = {'out': obs['outs'][k], 'vals': step['post'][0], 'status': step['post'][1], 'iters': step['post'][2], 'log': step['log'],
              'passvecs': step['passvecs'], 'raised': step['raised'], 'blocked': step['blocked'], 'warn_stored': step['warn_stored']}
         yield k, c, o
+
+
+def default_probe_scripts(p):
+    """scripts (for check variable 0 at position p) whose outcome depends on one of the keyword defaults:
+    never converging (max_iter, failures), converged from the first pass on (min_iter), a move of 2.5e-11 / 5e-10 per pass (tol),
+    a NaN / a warning at pass 2 (errors, catch_first_error), state-dependent (offset)"""
+    osc = [[['affine', 0, lib.fhex(-1.0), 0, lib.fhex(1.0)]] for _ in range(120)]
+    return {
+        'oscillating': {'passes': osc},
+        'settled': {'passes': [[['affine', 0, lib.fhex(1.0), 0, lib.fhex(0.0)]] for _ in range(4)]},
+        'creep-small': {'passes': [[['affine', 0, lib.fhex(1.0), 0, lib.fhex(2.5e-11)]] for _ in range(4)]},
+        'creep-large': {'passes': [[['affine', 0, lib.fhex(1.0), 0, lib.fhex(5e-10)]] for _ in range(120)]},
+        'nan-at-2': {'passes': [[['set', 0, lib.fhex(1.0)]], [['set', 0, 'nan']], [['set', 0, lib.fhex(1.0)]], [['set', 0, lib.fhex(1.0)]]]},
+        'warn-at-2': {'passes': [[['set', 0, lib.fhex(1.0)]], [['warnset', 0, lib.fhex(3.0)]], [['set', 0, lib.fhex(3.0)]], [['set', 0, lib.fhex(3.0)]]]},
+        'halving': {'passes': [[['affine', 0, lib.fhex(0.5), 0, lib.fhex(1.0)]] for _ in range(60)]},
+    }
+
+
+def default_probe_omissions():
+    return [[k] for k in OPT_KEYS] + [list(OPT_KEYS), ['min_iter', 'max_iter'], ['failures', 'errors', 'catch_first_error']]
